@@ -18,6 +18,9 @@ from genshi.compat import ast as _ast, _ast_Constant, IS_PYTHON2, isstring, \
 
 __docformat__ = 'restructuredtext en'
 
+import sys
+_INFSTR = '1e%d' % (sys.float_info.max_10_exp + 1)
+
 def parse(source, mode):
     return compile(source, '', mode, _ast.PyCF_ONLY_AST)
 
@@ -741,6 +744,10 @@ class ASTCodeGenerator(object):
         if node.value is Ellipsis:
             # repr(Ellipsis) is the (rebindable) name 'Ellipsis'
             self._write('...')
+        elif isinstance(node.value, (float, complex)):
+            # repr() of an infinite float is the name 'inf'; write a literal
+            # that overflows to infinity instead (as ast.unparse does)
+            self._write(repr(node.value).replace('inf', _INFSTR))
         else:
             self._write(repr(node.value))
 
